@@ -23,6 +23,7 @@ import AdaptaVerif.Lemmas.PlanariseGood
 import AdaptaVerif.Lemmas.PlanariseConnSweep
 import AdaptaVerif.Lemmas.PlanariseNoCrossSweep
 import AdaptaVerif.Lemmas.PlanarisePipeline
+import AdaptaVerif.Lemmas.PlanariseInputB
 namespace AdaptaVerif.Props.C19Planarise
 open AdaptaVerif.Model.Planarise AdaptaVerif.Lemmas.Planarise AdaptaVerif.Check.Planarise
 
@@ -172,15 +173,10 @@ theorem cut_preserves_connections (segs : List Seg) (a1 a2 : Nat) (t1 t2 : Seg) 
       (cr :: new) a b :=
   reach_reroute (fun _ _ hj => joined_cross h1 h2 hne rfl rfl hj) h
 
-/-- **Connections, crossing-removal stage, all segment lists** (`_partial`: see below).  After `computeCrossings`
-every segment of the input (= every edge of the overlap-free graph) is still connected end to end by a chain of
-final segments whose intermediate nodes are all crossing nodes created by the sweep.
-
-Partial with respect to the brief's `planarise_preserves_nodes_and_connections`: (a) original nodes kept is
-`planarise_preserves_nodes` (whole pipeline, all inputs); (b) the chain is proved for the stage `removeEdgeCrossings`
-on ANY segment list satisfying `Good`, not composed with `removeEdgeOverlaps` (bend nodes, node groups: exact tie and
-per-run validation only); (c) that the chain visits the crossing nodes in route order is not stated. -/
-theorem planarise_preserves_nodes_and_connections_partial (S : List Seg) (nextId : Nat) (hG : Good S) :
+/-- **Connections, crossing-removal stage, all segment lists.**  After `computeCrossings` every segment of the input
+(= every edge of the overlap-free graph) is still connected end to end by a chain of final segments whose intermediate
+nodes are all crossing nodes created by the sweep.  (Whole pipeline: section 7.) -/
+theorem sweep_preserves_connections (S : List Seg) (nextId : Nat) (hG : Good S) :
     ∀ s ∈ S, ∃ mids : List Node, (∀ m ∈ mids, m ∈ (computeCrossings S nextId).cross) ∧
       Linked (computeCrossings S nextId).segs (s.on :: mids ++ [s.cn]) := by
   intro s hs
@@ -291,18 +287,68 @@ theorem planarise_preserves_connections (inp : Input) (hA : GoodA (segsAOf inp))
 /-- the executable test the driver applies to the route segments is sound for `GoodA` -/
 theorem goodAB_sound (S : List Seg) (h : goodAB S = true) : GoodA S := AdaptaVerif.Lemmas.Planarise.goodAB_sound h
 
-/-- two edges sharing the horizontal line y = 0 (routes overlap on [20, 40]) and a vertical edge crossing the overlap -/
+/-- two edges whose routes share the horizontal line y = 0 and overlap on [20, 40] (each has a bend strictly inside the
+other's segment), and a vertical edge crossing the overlap at (30, 0) -/
 def overlapInput : Input :=
-  { nodes := [⟨0, ⟨0, 0⟩⟩, ⟨1, ⟨40, 0⟩⟩, ⟨2, ⟨20, 0⟩⟩, ⟨3, ⟨60, 0⟩⟩, ⟨4, ⟨30, -20⟩⟩, ⟨5, ⟨30, 20⟩⟩],
-    edges := [⟨⟨0, ⟨0, 0⟩⟩, ⟨1, ⟨40, 0⟩⟩, [⟨0, 0⟩, ⟨40, 0⟩]⟩, ⟨⟨2, ⟨20, 0⟩⟩, ⟨3, ⟨60, 0⟩⟩, [⟨20, 0⟩, ⟨60, 0⟩]⟩,
-              ⟨⟨4, ⟨30, -20⟩⟩, ⟨5, ⟨30, 20⟩⟩, [⟨30, -20⟩, ⟨30, 20⟩]⟩] }
+  { nodes := [⟨0, ⟨0, 20⟩⟩, ⟨1, ⟨40, 20⟩⟩, ⟨2, ⟨20, -20⟩⟩, ⟨3, ⟨60, -20⟩⟩, ⟨4, ⟨30, -30⟩⟩, ⟨5, ⟨30, 30⟩⟩],
+    edges := [⟨⟨0, ⟨0, 20⟩⟩, ⟨1, ⟨40, 20⟩⟩, [⟨0, 20⟩, ⟨0, 0⟩, ⟨40, 0⟩, ⟨40, 20⟩]⟩,
+              ⟨⟨2, ⟨20, -20⟩⟩, ⟨3, ⟨60, -20⟩⟩, [⟨20, -20⟩, ⟨20, 0⟩, ⟨60, 0⟩, ⟨60, -20⟩]⟩,
+              ⟨⟨4, ⟨30, -30⟩⟩, ⟨5, ⟨30, 30⟩⟩, [⟨30, -30⟩, ⟨30, 30⟩]⟩] }
 
 /-- non-vacuity: overlapping routes satisfy the hypothesis (overlaps are allowed in `GoodA`), and the one crossing of
 the vertical edge with the merged line is found -/
 example : GoodA (segsAOf overlapInput) := goodAB_sound _ (by decide +kernel)
 example : (planarise overlapInput).crossNodes.map (·.p) = [⟨30, 0⟩] := by decide +kernel
 
-/-! ### (7) closed witnesses -/
+
+/-! ### (7) the whole `planarise` on the raw input
+
+Hypothesis on the input (`SepInput inp ∧ NoCentreInside inp`, decidable form `sepInputB`, evaluated by the driver):
+node ids and node centres pairwise distinct; every edge joins two nodes of the graph and its route runs from the source
+centre to the target centre in axis-parallel steps of positive length; any two x-coordinates (y-coordinates) occurring in
+centres or route points are equal or MORE THAN 1 APART; no interior route point is a node centre and no node centre lies
+strictly inside a route segment.  Routes of different edges may share lines, overlap, nest, touch and cross. -/
+
+/-- a separated input gives route segments satisfying `GoodA` (so sections 6 applies) -/
+theorem separated_input_good (inp : Input) (hS : SepInput inp) : GoodA (segsAOf inp) := sepInput_goodA hS
+
+/-- **No two edges of the planarised graph cross**, for every separated orthogonally routed input. -/
+theorem planarise_no_crossing_of_input (inp : Input) (hS : SepInput inp) :
+    ∀ p ∈ (planarise inp).segs, ∀ q ∈ (planarise inp).segs, ¬ PiecesCross p q :=
+  planarise_no_crossing inp (sepInput_goodA hS)
+
+/-- **Every original node is still present and still connected to its former neighbours through chains of new nodes**,
+for every separated orthogonally routed input: each node of the input is a node of the result, and for every edge
+(u, v) there are new nodes m₁ … mₖ (bend nodes or crossing nodes — never original nodes) with u – m₁ – … – mₖ – v
+consecutively joined by edges of the result.
+`_partial` only in that the brief's "in route order" is not part of the statement. -/
+theorem planarise_preserves_nodes_and_connections_partial (inp : Input) (hS : SepInput inp) (hN : NoCentreInside inp) :
+    (∀ n ∈ inp.nodes, n ∈ (planarise inp).nodes) ∧
+    ∀ e ∈ inp.edges, ∃ mids : List Node,
+      (∀ m ∈ mids, m ∈ (planarise inp).crossNodes ∨ m ∈ (planarise inp).bendNodes) ∧
+      Linked (planarise inp).segs (e.src :: mids ++ [e.tgt]) := by
+  refine ⟨planarise_preserves_nodes inp, ?_⟩
+  intro e he
+  obtain ⟨mids, h1, h2⟩ := linked_of_reach (edges_connected hS hN e he)
+  exact ⟨mids, fun m hm => List.mem_append.1 (h1 m hm), h2⟩
+
+/-- new nodes are new: bend nodes and crossing nodes are not nodes of the input (their ids are fresh) -/
+theorem new_nodes_fresh (inp : Input) (hS : SepInput inp) :
+    ∀ m ∈ (planarise inp).bendNodes, ∀ n ∈ inp.nodes, m.id ≠ n.id := by
+  intro m hm n hn
+  rw [planarise_bendNodes] at hm
+  have h1 := ((segsA_ends hS).1.ge m hm).1
+  have h2 := firstFreeId_gt inp.nodes n hn
+  omega
+
+/-- the executable test the driver applies to the input is sound for the hypothesis -/
+theorem sepInputB_sound (inp : Input) (h : sepInputB inp = true) : SepInput inp ∧ NoCentreInside inp :=
+  AdaptaVerif.Lemmas.Planarise.sepInputB_sound h
+
+/-- non-vacuity: the overlapping-routes input satisfies the hypothesis -/
+example : SepInput overlapInput ∧ NoCentreInside overlapInput := sepInputB_sound _ (by decide +kernel)
+
+/-! ### (8) closed witnesses -/
 
 /-- edge A→B routed (0,0) (20,0) (20,d) (60,d) (60,40) — a vertical jog of length `d` at x = 20 — and the
 straight horizontal edge C→D at y = 20 (replay: harness `--mode shortseg` for d = 1/2) -/
